@@ -1,7 +1,7 @@
 //! Seed -> RunSpec. Everything about a run (configuration, scripts, fault plan, hash-key
 //! stream, scheduler stream) derives from one integer through independent sub-streams.
 
-use crate::corpus::{corpus, generic_inputs, generic_repls, Family};
+use crate::corpus::{blocks, corpus, generic_inputs, generic_repls, Family};
 use crate::model::*;
 use crate::rng::{mix, Rng};
 use regexml::verif::site;
@@ -17,7 +17,60 @@ pub fn all_sites_mask() -> u128 {
     m
 }
 
-fn pick_family<'a>(rng: &mut Rng, blocky: bool) -> &'a Family {
+/// Synthesise a block-escape family around block index `anchor` (neighbours in name order
+/// have similar names, which is what a wrongly keyed cache of the process-wide table
+/// would confuse).
+fn synth_block_family(rng: &mut Rng, anchor: usize) -> Family {
+    let b = blocks();
+    let near = |rng: &mut Rng| -> usize {
+        if rng.chance(75, 100) {
+            (anchor + b.len() + rng.below(5) - 2) % b.len()
+        } else {
+            rng.below(b.len())
+        }
+    };
+    let (ia, ib) = (near(rng), near(rng));
+    let (a, bb) = (&b[ia], &b[ib]);
+    let ch = |cp: u32| char::from_u32(cp).unwrap_or('?');
+    let p = match rng.below(6) {
+        0 => format!("\\p{{Is{}}}+", a.0),
+        1 => format!("\\P{{Is{}}}", a.0),
+        2 => format!("[\\p{{Is{}}}\\p{{Is{}}}]+", a.0, bb.0),
+        3 => format!("\\p{{Is{}}}\\p{{Is{}}}?", a.0, bb.0),
+        4 => format!("(\\p{{Is{}}}+)|(\\p{{Is{}}}+)", a.0, bb.0),
+        _ => format!("[\\p{{Is{}}}-[\\p{{Is{}}}]]+", a.0, bb.0),
+    };
+    let cs = [ch(a.1), ch(a.2), ch(bb.1), ch(bb.2)];
+    let inputs = vec![
+        format!("{}{}", cs[0], cs[1]),
+        format!("{}{}", cs[2], cs[3]),
+        format!("x{}{}y{}", cs[0], cs[2], cs[1]),
+        format!("{}{}{}{}", cs[3], cs[2], cs[1], cs[0]),
+        format!("{} {}", cs[0], cs[3]),
+        "abc".to_string(),
+    ];
+    Family {
+        key: Key {
+            xsd: rng.chance(15, 100),
+            p,
+            f: String::new(),
+        },
+        inputs,
+        repls: vec!["<$0>".into(), "$2$1".into()],
+        blocky: true,
+        hand: false,
+        err: false,
+    }
+}
+
+fn pick_family(rng: &mut Rng, blocky: bool, anchor: usize) -> Family {
+    if (blocky && rng.chance(60, 100)) || (!blocky && rng.chance(4, 100)) {
+        return synth_block_family(rng, anchor);
+    }
+    pick_family0(rng, blocky).clone()
+}
+
+fn pick_family0<'a>(rng: &mut Rng, blocky: bool) -> &'a Family {
     let c = corpus();
     for _ in 0..8 {
         let idx = if blocky && rng.chance(85, 100) {
@@ -107,8 +160,11 @@ fn vary_key(rng: &mut Rng, k: &Key) -> Key {
 }
 
 pub fn generate(seed: u64, flavor: &str) -> RunSpec {
-    let blocky = flavor == "b";
-    let mut rng = Rng::stream(seed, if blocky { 0xB10C } else { 0x0001 });
+    let cold_flavor = flavor == "b";
+    let mut rng = Rng::stream(seed, if cold_flavor { 0xB10C } else { 0x0001 });
+    // block-table heavy workload: always for cold-start runs, and for a share of the others
+    // (history on the process-wide table needs several such runs in one process)
+    let blocky = cold_flavor || rng.chance(8, 100);
     // --- shape
     let threads = match rng.below(100) {
         0..=21 => 1,
@@ -116,7 +172,7 @@ pub fn generate(seed: u64, flavor: &str) -> RunSpec {
         57..=83 => 3,
         _ => 4,
     };
-    let threads = if blocky { threads.max(2) } else { threads };
+    let threads = if cold_flavor { threads.max(2) } else { threads };
     let slots = match rng.below(100) {
         0..=39 => 1,
         40..=74 => 2,
@@ -124,7 +180,11 @@ pub fn generate(seed: u64, flavor: &str) -> RunSpec {
         _ => 4,
     };
     let nfam = rng.range(1, 3);
-    let fams: Vec<&Family> = (0..nfam).map(|_| pick_family(&mut rng, blocky)).collect();
+    let anchor = rng.below(blocks().len());
+    let fams_owned: Vec<Family> = (0..nfam)
+        .map(|_| pick_family(&mut rng, blocky, anchor))
+        .collect();
+    let fams: Vec<&Family> = fams_owned.iter().collect();
     // slot -> family (statically expected occupant)
     let slot_fam: Vec<usize> = (0..slots).map(|_| rng.below(nfam)).collect();
     let slot_key: Vec<Key> = slot_fam
@@ -191,7 +251,7 @@ pub fn generate(seed: u64, flavor: &str) -> RunSpec {
     };
 
     // --- scripts
-    let cold_style = blocky && rng.chance(70, 100);
+    let cold_style = cold_flavor && rng.chance(70, 100);
     let setup_ops = if cold_style {
         0
     } else if rng.chance(80, 100) {
